@@ -618,6 +618,9 @@ func (msc *MinerSmartContract) contributeMpk(t *transaction.Transaction,
 			"decoding request: %v", err)
 	}
 
+	// the key is recorded for the sender, whatever id the decoded input carries
+	mpk.ID = t.ClientID
+
 	if len(mpk.Mpk) != dmn.T {
 		return "", common.NewErrorf("contribute_mpk_failed",
 			"mpk sent (size: %v) is not correct size: %v", len(mpk.Mpk), dmn.T)
